@@ -103,6 +103,8 @@ pub struct VOpts {
     pub lists: Option<Vec<(usize, usize)>>,
     pub rev_reg_defs: bool,
     pub override_: Option<Vec<(String, Vec<(u64, u64)>)>>,
+    /// supply only these definitions (and their schemas): a verifier that resolves exactly what the presentation names
+    pub only_defs: Option<Vec<usize>>,
 }
 
 pub struct RealCtx {
@@ -118,7 +120,7 @@ pub fn build_ctx(cast: &Cast, o: &VOpts, accs: &mut AccTable) -> (RealCtx, Value
     let mut schemas = HashMap::new();
     let mut a_schemas = vec![];
     for (i, d) in w.defs.iter().enumerate() {
-        if o.drop_schema == Some(i) {
+        if o.drop_schema == Some(i) || o.only_defs.as_ref().map(|v| !v.contains(&i)).unwrap_or(false) {
             continue;
         }
         if schemas.insert(d.sid.clone(), d.schema.clone()).is_none() {
@@ -128,7 +130,7 @@ pub fn build_ctx(cast: &Cast, o: &VOpts, accs: &mut AccTable) -> (RealCtx, Value
     let mut cred_defs = HashMap::new();
     let mut a_defs = vec![];
     for (i, d) in w.defs.iter().enumerate() {
-        if o.drop_def == Some(i) {
+        if o.drop_def == Some(i) || o.only_defs.as_ref().map(|v| !v.contains(&i)).unwrap_or(false) {
             continue;
         }
         let src = match o.swap_def {
